@@ -228,6 +228,7 @@ func shortWritePhase(env *core.Env, check string, pre core.Store, cmds []crashCm
 		limit int64
 	}
 	var jobs []job
+	postNorm := map[string]string{} // command name -> observable state after an unlimited run
 	for _, c := range cmds {
 		// reference run: how much does the log grow, where are the line boundaries of what is appended
 		pre.Materialize(w0.Proj)
@@ -240,6 +241,8 @@ func shortWritePhase(env *core.Env, check string, pre core.Store, cmds []crashCm
 		}
 		after, _ := core.Snapshot(w0.Proj)
 		post := after.Log()
+		refObs := core.ObserveW(w0, w0.Proj)
+		postNorm[c.Name] = refObs.Norm(refObs.TitleMap())
 		set := map[int64]bool{}
 		add := func(n int64) {
 			if n > 0 {
@@ -300,6 +303,30 @@ func shortWritePhase(env *core.Env, check string, pre core.Store, cmds []crashCm
 		atomic.AddInt64(&runs, 1)
 		if res.Exit == 0 {
 			atomic.AddInt64(&succeeded, 1)
+			// the command says it succeeded: then its whole effect must be there (the limit did not bite, or it coped)
+			if obs.Fail != "" || obs.Norm(obs.TitleMap()) != postNorm[j.c.Name] {
+				sig := fmt.Sprintf("%s kind=acknowledged-but-not-in-effect-on-a-short-write %s", check, familyOf(j.c.Req))
+				if env.ViolationSeen(sig) {
+					return
+				}
+				for k := 0; k < 4; k++ {
+					r2, o2 := once()
+					if r2.Exit != 0 || (o2.Fail == "" && o2.Norm(o2.TitleMap()) == postNorm[j.c.Name]) {
+						unconfirmed.Add(1)
+						return
+					}
+				}
+				rel := j.c.Req
+				rel.Cwd, rel.RandBase, rel.FsizeLimit = ".", -1, j.limit
+				alt := j.c.Req
+				alt.Cwd, alt.RandBase = ".", -1
+				tr := mkTrace(pre, "file size limit "+fmt.Sprint(j.limit)+"; alt branch = the same command without the limit", nil)
+				tr.Steps, tr.Alt = []core.Req{rel}, []core.Req{alt}
+				tr.Shell = []string{fmt.Sprintf("prlimit --fsize=%d -- %s", j.limit, j.c.Req.Shell())}
+				tr.FailIf = []Assert{{Kind: "exit_zero", Step: 1}, {Kind: "alt_differs_by_title", Step: 1}}
+				env.Violation(sig, fmt.Sprintf("`%s` under a file size limit of %d bytes (log is %d bytes) exits 0, but the store does not show what an unlimited run leaves (reads: %q): %s",
+					j.c.Req.Shell(), j.limit, preSize, obs.Fail, firstDiff(postNorm[j.c.Name], obs.Norm(obs.TitleMap()))), tr)
+			}
 			return
 		}
 		atomic.AddInt64(&failed, 1)
@@ -330,7 +357,7 @@ func shortWritePhase(env *core.Env, check string, pre core.Store, cmds []crashCm
 			j.c.Req.Shell(), j.limit, preSize, res.Exit, clipS(string(res.Err), 100), obs.Fail, firstDiff(preNorm, obs.Norm(obs.TitleMap()))), tr)
 	})
 	return map[string]interface{}{"runs": runs, "command_failed": failed, "failed_and_unchanged": failedUnchanged, "limit_did_not_bite": succeeded,
-		"rule": "each command under RLIMIT_FSIZE = every line boundary of its append (+-1) and 8 evenly spaced offsets inside it (thorough: every byte), and 5 limits below the size of a rewritten log; asserted: exit non-zero => observable state equals the pre-state"}
+		"rule": "each command under RLIMIT_FSIZE = every line boundary of its append (+-1) and 8 evenly spaced offsets inside it (thorough: every byte), and 5 limits below the size of a rewritten log; asserted: exit non-zero => observable state equals the pre-state, exit 0 => it equals the state an unlimited run leaves"}
 }
 
 // unchangedWhateverPhase: for a command that must never change what readers see (compact), EIO is injected into every
